@@ -433,3 +433,25 @@ CHECKS["C18"] = {
         {"name": "netpoll-transport", "run": "^TestC18Netpoll$", "kind": "rapid", "checks": {"quick": 32, "thorough": 480}, "shards": {"quick": 16, "thorough": 16}, "shrinktime": "30s"},
     ],
 }
+
+CHECKS["C16"] = {
+    "pkg": "props/c16",
+    "module": "harness_hz",
+    "prebuild": "cd harness_hz && go build -o ../.build/hzgen ./cmd/hzgen",
+    "level": "translation_validation",
+    "programs_unit": "programs",
+    "rule": "A program is a declared method set (1..10 methods; unique handler names in several styles; verb in {GET, POST, PUT, DELETE, PATCH, HEAD, OPTIONS, Any}; path of 0..4 segments over {a-b, a_b, a.b, A_B, ab, 1a, a1, :id, :a_b, *rest, v1, users} with root and trailing-slash variants, so that segments collide after identifier mangling, repeat at different depths and share prefixes) "
+            "x options {sort-router, snake-style middleware, handler-by-method} x {fresh generation, update over the files of a first generation without the last method}. The real cmd/hz/generator runs once per program in a fresh process (hzgen); the generated router file is compiled UNCHANGED together with recording stubs that define exactly the middleware/handler functions it references (batches of 30 programs per go build). "
+            "Non-trivial = two segments that mangle to the same identifier, the same path under >= 2 verbs, a parameter/catch-all, or a route that is a prefix of another; disagreements_checked = programs for which hz had to uniquify an identifier.",
+    "assumptions": [
+        "declared sets that hertz's own router refuses when registered directly (conflicting wildcards) are outside the property and counted; sets hz itself refuses to generate are counted as refused, not validated",
+        "handler and model templates are not under test (stubs replace them); the router and the set of functions middleware.go must define are",
+    ],
+    "level_text": "Translation validation of generated programs: every generated router must parse and compile, Engine.Routes() after Register must equal the declared (verb, path) multiset (Any = 9 verbs), a probe per declared route must run root middleware, then the middleware of every group on its path (read from the router AST, prefixes strictly extending to the route's parent path), then the handler's own middleware, then the handler of the declared name, each exactly once.",
+    "level_note": "Trusts go/parser, the Go compiler and the hertz router as the target semantics; generation is sampled by rapid.",
+    "technique": "translation validation of rapid-generated IDL method sets: generate, compile, register, probe",
+    "nontrivial_floor": 20,
+    "units": [
+        {"name": "programs", "run": "^TestC16Batch$", "kind": "rapid", "checks": {"quick": 8, "thorough": 160}, "shards": {"quick": 8, "thorough": 16}, "shrinktime": "1s", "timeout": {"quick": 900, "thorough": 5400}},
+    ],
+}
